@@ -288,10 +288,22 @@ def main():
                     else:
                         still.append(ob)
                 failed_undecided = still
+            for it_ in weave_report.get("items", []):
+                if it_.get("anchor_lost"):
+                    ob = it_.get("obligation")
+                    undecided.append("anchor lost, body not verified: " + it_["anchor_lost"][:300])
+                    if ob in discharged:
+                        discharged.remove(ob)
+                    if ob in missing:
+                        missing.remove(ob)
+                    if ob in obligations and ob not in failed_undecided:
+                        failed_undecided.append(ob)
             if missing:
                 undecided.append("obligations not reported by Verus (item renamed or removed?): " + ", ".join(missing))
+            lost_obs = [it_.get("obligation") for it_ in weave_report.get("items", []) if it_.get("anchor_lost")]
             for ob in failed_undecided:
-                undecided.append("resource limit on obligation " + ob)
+                if ob not in lost_obs:
+                    undecided.append("resource limit on obligation " + ob)
         # ---- 3. vacuity -------------------------------------------------------------------
         if prop.get("vacuity") and not verus["compile_error"]:
             vunit = os.path.join(wd, CRATE + "_vac.rs")
